@@ -262,8 +262,11 @@ static void do_wfree(int idx)
 }
 static void do_maxclr(unsigned mask)
 {
-	int r = event_base_get_max_events(base, mask, 1), mr = em_max_events(&M, mask, 1);
-	if (!dead && r != mr) { MSG("get_max_events(%u, clear) = %d, model %d", mask, r, mr); FAIL("%s/state/max_events_clear/mask%u", P, mask); }
+	int r, mr;
+	compare_all("before clear");      /* narrows a tie-dependent maximum to the implementation's value */
+	if (dead) return;
+	r = event_base_get_max_events(base, mask, 1); mr = em_max_events(&M, mask, 1);
+	if (r != mr) { MSG("get_max_events(%u, clear) = %d, model %d", mask, r, mr); FAIL("%s/state/max_events_clear/mask%u", P, mask); }
 }
 static void do_virt(int d)
 {
@@ -490,6 +493,30 @@ static uint64_t canon(void)
 
 static void lcb(int sev, const char *m) { (void)sev; (void)m; }
 
+/* fd-table signature without opendir(): under ASan every opendir() takes a
+ * fresh 32 KB chunk through the quarantine, which dominated the run time */
+#include <sys/syscall.h>
+static uint64_t fd_signature(void)
+{
+	static char buf[4096];
+	uint64_t h = 0;
+	int d = open("/proc/self/fd", O_RDONLY | O_DIRECTORY | O_CLOEXEC);
+	long n;
+	if (d < 0) return 0;
+	while ((n = syscall(SYS_getdents64, d, buf, sizeof buf)) > 0) {
+		for (long o = 0; o < n; ) {
+			struct { uint64_t ino; int64_t off; unsigned short reclen; unsigned char type; char name[]; } *e = (void *)(buf + o);
+			if (e->name[0] != '.') { int fd = atoi(e->name); if (fd != d) h += mc_hash_u64(0x1234, (uint64_t)fd); }
+			o += e->reclen;
+		}
+	}
+	close(d);
+	return h;
+}
+/* a small quarantine is enough: every use-after-free this harness can provoke
+ * happens within the execution that freed the object (a few KB of allocations) */
+const char *__asan_default_options(void) { return "quarantine_size_mb=16"; }
+
 static void init(void)
 {
 	struct sigaction sa;
@@ -520,7 +547,7 @@ static void init(void)
 	backend = mc_param("backend", 0);
 	wait_cap = mc_param("waitcap", WAIT_CAP_DEFAULT);
 	if (p_slots > NSLOT) p_slots = NSLOT;
-	live0 = mcx_alloc_live(); fdsig0 = mcx_fd_signature();
+	live0 = mcx_alloc_live(); fdsig0 = fd_signature();
 }
 
 static void setup(void)
@@ -604,7 +631,7 @@ static void teardown(void)
 	base = NULL;
 	vclock_block_hook = NULL; vclock_prewait_hook = NULL; vclock_postwait_hook = NULL;
 	if (mcx_alloc_live() != live0) mc_fail("hygiene/leak", "%ld library allocations left after event_base_free", mcx_alloc_live() - live0);
-	if (mcx_fd_signature() != fdsig0) mc_fail("hygiene/fdleak", "fd table differs from baseline after event_base_free");
+	if (fd_signature() != fdsig0) mc_fail("hygiene/fdleak", "fd table differs from baseline after event_base_free");
 	sigaction(SIGUSR1, NULL, &sa);
 	if (sa.sa_handler != SIG_IGN) { mc_fail("hygiene/signal-disposition", "SIGUSR1 disposition not restored"); sa.sa_handler = SIG_IGN; sa.sa_flags = 0; sigaction(SIGUSR1, &sa, NULL); }
 	sigprocmask(SIG_SETMASK, NULL, &cur);
